@@ -59,7 +59,8 @@ shape("Captured")
 def fmt_event(kind):
     contract("abs:fmt." + kind, trusted=True, pos_params=["arg"], defaults={"arg": None},
              modifies=["G_nev"],
-             ghost_stores=[("ev_kind", "G_nev", "'%s'" % kind), ("ev_arg", "G_nev", "arg")],
+             ghost_stores=[("ev_kind", "G_nev", "'%s'" % kind), ("ev_arg", "G_nev", "arg")] +
+                          ([("ev_status", "G_nev", "as_ref(arg, 'Step').status")] if kind == "result" else []),
              ensures={"event": "G_nev == old(G_nev) + 1"},
              doc="formatter.%s(...) broadcast to all active formatters: appends one event to the ghost event log "
                  "(A-fmt: formatters do not raise or touch the model)" % kind)
@@ -98,7 +99,7 @@ contract(M + "Step.run", props=P,
          loops=[Loop(broadcast=("abs:fmt.match", "match")), Loop(broadcast=("abs:fmt.result", "result")),
                 Loop(broadcast=("abs:fmt.match", "match")), Loop(broadcast=("abs:fmt.result", "result"))],
          modifies=["G_bad", "G_nhooks", "G_hook_name", "G_hook_arg", "G_ncalls", "G_calls", "G_nev", "G_ev_kind",
-                   "G_ev_arg", "G_ctx_aborted", "*.status", "*.hook_failed", "*.duration", "*.exception",
+                   "G_ev_arg", "G_ev_status", "G_ctx_aborted", "*.status", "*.hook_failed", "*.duration", "*.exception",
                    "*.exc_traceback", "*.error_message", "*.captured", "*.should_skip", "*.skip_reason",
                    "*._cached_status", "runner.hook_failures", "list(runner._undefined_steps)",
                    "runner.capture_controller.old_stdout", "runner.capture_controller.old_stderr",
@@ -175,6 +176,8 @@ contract(M + "Step.run", props=P,
              "one-match-and-one-result-event":
                  "implies(not quiet, G_nev == old(G_nev) + 2 and G_ev_kind(old(G_nev)) == 'match' "
                  "and G_ev_kind(old(G_nev) + 1) == 'result' and G_ev_arg(old(G_nev) + 1) is self)",
+             "the-result-event-shows-the-final-status":
+                 "implies(not quiet, G_ev_status(old(G_nev) + 1) == self.status)",
              "quiet-emits-nothing": "implies(quiet, G_nev == old(G_nev))",
              # ---- C18 -------------------------------------------------------------------------------------
              "real-streams-restored": "sys.stdout is old(sys.stdout) and sys.stderr is old(sys.stderr)",
